@@ -13,4 +13,4 @@ def nontrivial(tr):
 
 
 def run(chk):
-    eg.standard_run(chk, "C01", ["fanout", "collect", "wait"], {"step_start", "step_end", "pub"}, nontrivial=nontrivial)
+    eg.standard_run(chk, "C01", ["fanout", "collect", "wait", "equal_events"], {"step_start", "step_end", "pub"}, nontrivial=nontrivial)
